@@ -1,6 +1,6 @@
 # rs2coq.py - translator of small pure Rust functions and expressions (f64 arithmetic, comparisons, let, if, match on
 # an Option, match with guards) into Gallina over the Num record.  Used by gen.py to regenerate coq/gen/GenFns.v from
-# /repo's source text on every run; proofs/SourceFacts.v proves each generated definition equal to the hand-written
+# /repo's source text on every run; proofs/Src*.v prove each generated definition equal to the hand-written
 # model's, so a change of the formula in the source breaks a proof obligation.
 #
 # What the translator does NOT understand it refuses (TranslateError): the generated file then carries a dummy body and a
@@ -589,6 +589,12 @@ def emit(n, cx):
         simple = {"sqrt": "nsqrt", "sin": "fsin", "cos": "fcos", "acos": "facos", "exp": "fexp", "abs": "nabs", "is_nan": "nis_nan"}
         if name in simple and not a:
             return "(%s %s)" % (simple[name], r)
+        if name == "eq" and len(a) == 1:
+            return "(%s =? %s)" % (r, a[0])
+        if name == "partial_cmp" and len(a) == 1:
+            return "(f64_partial_cmp NN %s %s)" % (r, a[0])
+        if name == "unwrap" and not a:
+            return "(unwrap_or_panic %s)" % r
         if name == "is_some" and not a:
             return "(match %s with Some _ => true | None => false end)" % r
         if name in ("min", "max") and len(a) == 1:
@@ -711,6 +717,13 @@ def emit(n, cx):
             for a in reversed(arms[:-2]):
                 body = "(if %s then %s else %s)" % (emit(a[1], cx), emit(a[2], cx), body)
             return "(match %s with Some %s => %s | None => %s end)" % (emit(scrut, cx), var, body, emit(arms[-1][2], cx))
+        if (scrut[0] == "tuple" and len(scrut[1]) == 2 and len(arms) == 2 and all(a[1] is None for a in arms)
+                and arms[0][0][0] == "tuple" and [q[0] for q in arms[0][0][1]] == ["some", "some"]
+                and arms[1][0] == ("tuple", [("wild",), ("wild",)])):
+            # match (a, b) { (Some(x), Some(y)) => e1, (_, _) => e2 }
+            x, y = arms[0][0][1][0][1], arms[0][0][1][1][1]
+            return "(match %s, %s with Some %s, Some %s => %s | _, _ => %s end)" % (
+                emit(scrut[1][0], cx), emit(scrut[1][1], cx), x, y, emit(arms[0][2], cx), emit(arms[1][2], cx))
         if all(a[1] is None and (a[0][0] == "wild" or (a[0][0] == "bind" and a[0][1] in cx.subst)) for a in arms):
             # match over an enum whose constructors the table names
             return "(match %s with %s end)" % (emit(scrut, cx), " ".join(
